@@ -153,12 +153,19 @@ class UnivariateDiscretizedSiteModel(SiteModel):
         self._probabilities = torch.full(
             (categories,),
             1.0 / categories,
-            dtype=parameter.dtype,
+            dtype=self._float_dtype(parameter),
             device=parameter.device,
         )
         self._rates = None
         if invariant is not None:
             self._categories += 1
+
+    @staticmethod
+    def _float_dtype(parameter) -> torch.dtype:
+        # quantiles and probabilities follow the parameter, not the default dtype
+        if parameter.dtype.is_floating_point:
+            return parameter.dtype
+        return torch.get_default_dtype()
 
     @abstractmethod
     def inverse_cdf(
@@ -173,9 +180,13 @@ class UnivariateDiscretizedSiteModel(SiteModel):
     def update_rates(self, parameter: torch.Tensor, invariant: torch.Tensor):
         if invariant is not None:
             cat = self._categories - 1
-            quantile = (2.0 * torch.arange(cat, device=parameter.device) + 1.0) / (
-                2.0 * cat
-            )
+            quantile = (
+                2.0
+                * torch.arange(
+                    cat, dtype=self._float_dtype(parameter), device=parameter.device
+                )
+                + 1.0
+            ) / (2.0 * cat)
             self._probabilities = torch.cat(
                 (
                     invariant,
@@ -186,7 +197,13 @@ class UnivariateDiscretizedSiteModel(SiteModel):
             rates = self.inverse_cdf(parameter, quantile, invariant)
         else:
             quantile = (
-                2.0 * torch.arange(self._categories, device=parameter.device) + 1.0
+                2.0
+                * torch.arange(
+                    self._categories,
+                    dtype=self._float_dtype(parameter),
+                    device=parameter.device,
+                )
+                + 1.0
             ) / (2.0 * self._categories)
             rates = self.inverse_cdf(parameter, quantile, invariant)
 
